@@ -15,10 +15,24 @@ import (
 
 func init() { register("C01", checkC01) }
 
-// closesOf: close(ch) calls on the channel held in cell.
-func closesOfCell(fns []*ssa.Function, cell *ssa.Alloc) []ssa.CallInstruction {
+// chanID identifies the channel a value denotes across functions of one session: the cell of a
+// captured channel variable, or the make(chan) a field of a session object was given.
+func (t *thrModel) chanID(v ssa.Value) ssa.Value {
+	if ld, ok := strip(v).(*ssa.UnOp); ok {
+		if cell := cellOf(ld.X); cell != nil {
+			return cell
+		}
+	}
+	if mk, ok := t.sl.rootOf(v).(*ssa.MakeChan); ok {
+		return mk
+	}
+	return nil
+}
+
+// closesOf: close(ch) calls on the channel identified by id.
+func (t *thrModel) closesOf(id ssa.Value) []ssa.CallInstruction {
 	var out []ssa.CallInstruction
-	for _, fn := range fns {
+	for _, fn := range t.fns {
 		for _, in := range instrsOf(fn) {
 			ci, ok := in.(ssa.CallInstruction)
 			if !ok {
@@ -28,12 +42,25 @@ func closesOfCell(fns []*ssa.Function, cell *ssa.Alloc) []ssa.CallInstruction {
 			if !ok || b.Name() != "close" {
 				continue
 			}
-			if ld, ok := strip(ci.Common().Args[0]).(*ssa.UnOp); ok && cellOf(ld.X) == cell {
+			if t.chanID(ci.Common().Args[0]) == id {
 				out = append(out, ci)
 			}
 		}
 	}
 	return out
+}
+
+// contCall: the Synchronize call whose continuation fn is — fn itself, or the literal (method value) fn
+// is inlined into.
+func (t *thrModel) contCall(fn *ssa.Function) (ssa.CallInstruction, bool) {
+	if ci, ok := t.conts[fn]; ok {
+		return ci, true
+	}
+	if r := rootOfHelper(fn); r != fn {
+		ci, ok := t.conts[r]
+		return ci, ok
+	}
+	return nil, false
 }
 
 // barrierDepth of an instruction: number of Synchronize barriers that have
@@ -59,21 +86,17 @@ func (t *thrModel) barrierDepth(in ssa.Instruction, seen map[*ssa.Function]bool)
 		if st.Dir != types.RecvOnly {
 			continue
 		}
-		ld, ok := strip(st.Chan).(*ssa.UnOp)
-		if !ok {
-			continue
-		}
-		cell := cellOf(ld.X)
+		cell := t.chanID(st.Chan)
 		if cell == nil {
 			continue
 		}
-		closes := closesOfCell(t.fns, cell)
+		closes := t.closesOf(cell)
 		if len(closes) == 0 {
 			continue
 		}
 		all := true
 		for _, cl := range closes {
-			ci, isCont := t.conts[cl.Parent()]
+			ci, isCont := t.contCall(cl.Parent())
 			if !isCont {
 				all = false
 				break
@@ -87,7 +110,7 @@ func (t *thrModel) barrierDepth(in ssa.Instruction, seen map[*ssa.Function]bool)
 		for _, g := range t.fns {
 			for _, x := range instrsOf(g) {
 				if snd, ok := x.(*ssa.Send); ok {
-					if l2, ok := strip(snd.Chan).(*ssa.UnOp); ok && cellOf(l2.X) == cell {
+					if t.chanID(snd.Chan) == cell {
 						all = false
 					}
 				}
@@ -111,7 +134,7 @@ func (t *thrModel) fnDepth(fn *ssa.Function, seen map[*ssa.Function]bool) int {
 		return t.barrierDepth(ci.(ssa.Instruction), seen) + 1
 	}
 	// closure: depth at creation
-	if fn.Parent() != nil {
+	if litParent(fn) != nil {
 		best := -1
 		for _, mc := range t.sl.closures[fn] {
 			d := t.barrierDepth(mc, seen)
@@ -148,7 +171,7 @@ func (t *thrModel) happensBefore(e ssa.Instruction, at ssa.Instruction) bool {
 		if le := t.liftInto(e, g, 0); le != nil && le != cur && instrDominates(le, cur) {
 			return true
 		}
-		if g.Parent() != nil {
+		if litParent(g) != nil {
 			mcs := t.sl.closures[g]
 			if len(mcs) != 1 {
 				return false
@@ -193,6 +216,7 @@ func checkC01(c *Ctx) {
 		return
 	}
 	m := t.m
+	ruleC01LoopIndex(c)
 	const O1, O2, V1, N1, W1 = "C01.O1", "C01.O2", "C01.V1", "C01.N1", "C01.W1"
 	c.Rule(O1, "protocol start has barrier depth ≥ 2", 1)
 	c.Rule(O2, "RBC handler, classifier and Init in place before the second barrier opens", 3)
@@ -237,11 +261,11 @@ func checkC01(c *Ctx) {
 		fname := FuncName(ci.Parent())
 		// events
 		kinds := map[string][]ssa.Instruction{}
-		for _, mu := range mapUpdatesOfField(t.fns, t.fRBCTab) {
-			kinds["RBC handler registered"] = append(kinds["RBC handler registered"], mu)
+		for _, ts := range tableStoresOfField(t.fns, t.fRBCTab) {
+			kinds["RBC handler registered"] = append(kinds["RBC handler registered"], ts.at)
 		}
-		for _, mu := range mapUpdatesOfField(t.fns, t.fClsTab) {
-			kinds["classifier registered"] = append(kinds["classifier registered"], mu)
+		for _, ts := range tableStoresOfField(t.fns, t.fClsTab) {
+			kinds["classifier registered"] = append(kinds["classifier registered"], ts.at)
 		}
 		for _, ini := range invokesOf(t.fns, "Init") {
 			kinds["backend Init"] = append(kinds["backend Init"], ini.(ssa.Instruction))
@@ -289,7 +313,7 @@ func checkC01(c *Ctx) {
 						okTopic = true
 					}
 				}
-				if sameCellOrValue(fl.Common().Args[3], args[3]) {
+				if t.sameSessionValue(fl.Common().Args[3], args[3]) {
 					okCount = true
 				}
 			}
@@ -323,8 +347,16 @@ func checkC01(c *Ctx) {
 	silent := c.mustFunc(m, PkgThreshold, "", "SilentScheme")
 	ebsHM := c.mustFunc(m, PkgThreshold, "embeddedBoxWithScheme", "HandleMessage")
 	if silent != nil && ebsHM != nil {
-		var box, sch, emb *ssa.Alloc
-		for _, in := range instrsOf(silent) {
+		var box, emb *ssa.Alloc
+		var sch ssa.Value
+		for _, in := range instrsDeep(silent) {
+			// the scheme may come from a constructor step shared with LoudScheme
+			if cl, isC := in.(*ssa.Call); isC {
+				if ca, via, _ := ctorLiteral(cl); ca != nil && via == cl && isNamed(ca.Type().(*types.Pointer).Elem(), PkgThreshold, "Scheme") {
+					sch = cl
+				}
+				continue
+			}
 			a, ok := in.(*ssa.Alloc)
 			if !ok {
 				continue
@@ -346,7 +378,7 @@ func checkC01(c *Ctx) {
 			fEmbBox := m.Field(PkgThreshold, "embeddedBoxWithScheme", "Box")
 			fEmbSch := m.Field(PkgThreshold, "embeddedBoxWithScheme", "Scheme")
 			h, _ := structLitFieldValue(box, fBoxH)
-			c.Check(h != nil && strip(h) == ssa.Value(sch), W1, FuncName(silent), "Box.MessageHandler is the scheme", m.Pos(box.Pos()), "MessageHandler: s", "buffered/forwarded messages are not handed to the scheme")
+			c.Check(h != nil && strip(h) == sch, W1, FuncName(silent), "Box.MessageHandler is the scheme", m.Pos(box.Pos()), "MessageHandler: s", "buffered/forwarded messages are not handed to the scheme")
 			// ForwardSend = s.Send loaded before it is overwritten
 			fwd, _ := structLitFieldValue(box, fBoxFwd)
 			okFwd := false
@@ -379,10 +411,10 @@ func checkC01(c *Ctx) {
 			c.Check(okSend, W1, FuncName(silent), "scheme sends through the Box", m.Pos(silent.Pos()), "s.Send = box.Send", "the scheme's sends bypass the Box: the first send never releases the buffered messages")
 			eb, _ := structLitFieldValue(emb, fEmbBox)
 			es, _ := structLitFieldValue(emb, fEmbSch)
-			okEmb := eb != nil && es != nil && strip(eb) == ssa.Value(box) && strip(es) == ssa.Value(sch)
+			okEmb := eb != nil && es != nil && (strip(eb) == ssa.Value(box) || resultOf(eb) == ssa.Value(box)) && strip(es) == sch
 			retOK := false
 			for _, in := range instrsOf(silent) {
-				if r, ok := in.(*ssa.Return); ok && strip(retResult(r, 0)) == ssa.Value(emb) {
+				if r, ok := in.(*ssa.Return); ok && (strip(retResult(r, 0)) == ssa.Value(emb) || resultOf(retResult(r, 0)) == ssa.Value(emb)) {
 					retOK = true
 				}
 			}
@@ -407,7 +439,7 @@ func checkC01(c *Ctx) {
 func isInsideCont(t *thrModel, fn *ssa.Function) bool { return enclosingCont(t, fn) != nil }
 
 func enclosingCont(t *thrModel, fn *ssa.Function) *ssa.Function {
-	for f := fn; f != nil; f = f.Parent() {
+	for f, i := fn, 0; f != nil && i < 24; f, i = enclosingFn(f), i+1 {
 		if _, ok := t.conts[f]; ok {
 			return f
 		}
@@ -457,5 +489,67 @@ func ruleShareAfterInit(c *Ctx, t *thrModel) {
 	}
 	if n == 0 {
 		c.Bad(O3, "threshold", "Init of a signing instance", "-", "no Init call on a Signer found")
+	}
+}
+
+// ruleC01LoopIndex (C01.A1): a loop over a re-sliced slice does not index the original slice with its
+// loop index.  `for i := range xs[1:] { … xs[i] … }` visits xs[0..len−2] — the first element twice when
+// the accumulator started from xs[0], the last never — where `for i := 1; i < len(xs); i++` visited
+// xs[1..len−1].  In the secret-sharing arithmetic (Lagrange coefficients, share and key aggregation) this
+// is invisible for two points and wrong from three on: authorised sets larger than the threshold produce
+// signatures that do not verify, and the t-subset cross-check of key generation fails for t ≥ 3.  The
+// algebra itself is not decided; this is the shape of its loops.
+func ruleC01LoopIndex(c *Ctx) {
+	const A1 = "C01.A1"
+	c.Rule(A1, "aggregation loops index the slice they range over", 0)
+	n := 0
+	for _, mp := range []struct{ mod, pkg string }{{ModBLS, PkgBLS}, {ModPS, PkgPS}, {ModRoot, PkgThreshold}} {
+		mm := c.Mod(mp.mod)
+		if mm == nil {
+			continue
+		}
+		for _, fn := range mm.PkgFuncs(mp.pkg) {
+			for _, in := range instrsOf(fn) {
+				cmp, ok := in.(*ssa.BinOp)
+				if !ok || cmp.Op != token.LSS {
+					continue
+				}
+				lx, isLen := lenOperand(cmp.Y)
+				if !isLen {
+					continue
+				}
+				sl, ok := lx.(*ssa.Slice)
+				if !ok || sl.Low == nil || sl.High != nil {
+					continue
+				}
+				lo, isK := constInt(sl.Low)
+				if !isK || lo < 1 {
+					continue
+				}
+				// the loop index compared with len(xs[lo:]) …
+				idx := cmp.X
+				// … used to index xs itself
+				for _, in2 := range instrsOf(fn) {
+					var base, at ssa.Value
+					switch y := in2.(type) {
+					case *ssa.IndexAddr:
+						base, at = y.X, y.Index
+					case *ssa.Index:
+						base, at = y.X, y.Index
+					}
+					if base == nil || at != idx {
+						continue
+					}
+					if base == sl.X || strip(base) == strip(sl.X) {
+						n++
+						c.Bad(A1, FuncName(fn), "index of "+render(base)+" inside a loop over "+render(sl), mm.Pos(in2.Pos()),
+							fmt.Sprintf("the loop ranges over %s but indexes %s with its index: it visits elements 0..len−%d instead of %d..len−1 — an element is used twice and one never; coefficients / aggregates are wrong from three points on (authorised sets above the threshold do not verify, the t-subset cross-check fails for t ≥ 3)", render(sl), render(base), lo+1, lo))
+					}
+				}
+			}
+		}
+	}
+	if n == 0 {
+		c.OK(A1, "mpc/bls, mpc/ps, threshold", "loops over re-sliced slices", "-", "no loop over xs[k:] indexes xs with its loop index")
 	}
 }
